@@ -47,8 +47,7 @@ void second_case(vh::Case& c) {
   std::vector<Interval> gen = generic_route(sizes, vals, ess);
   c.count("cmp.second.generic_route_vs_model");
   if (gen != E.offdiag || ess.size() != 1 || ess[0] != E.minimum) {
-    X.violation("second.generic_route_vs_model", line ? "line" : std::string("shape=") + shape_class(rows, cols),
-                "input " + txt + " Bitmap_cubical_complex+Persistent_cohomology " + oracle::show(gen) + " model " + oracle::show(E.offdiag));
+    X.violation("second.generic_route_vs_model", line ? "line" : std::string("shape=") + shape_class(rows, cols), [&] { return "input " + txt + " Bitmap_cubical_complex+Persistent_cohomology " + oracle::show(gen) + " model " + oracle::show(E.offdiag); });
   }
   // the specialised routine against the model (and hence against the generic route)
   if (line) {
